@@ -201,9 +201,9 @@ Record sobs := SObs { sb_code : N; sb_outs : list bytes; sb_nhs : N; sb_nss : N;
 Inductive sstep :=
 | SRotate (ck : N)                                            (* cookie key rotation *)
 | SAccept                                                     (* the application took a handle from Accept *)
-| SDgram (ip port : N) (d : bytes) (out : bytes)               (* datagram d from ip:port; out = what was sent (concatenated) *)
+| SDgram (ip : bytes) (port : N) (d : bytes) (out : bytes)               (* datagram d from ip:port; out = what was sent (concatenated) *)
          (rest : bytes -> env * step_in * sobs)                (* applied to d ++ out *)
-| SJunk (ip port : N) (d : bytes) (code nhs nss npend : N).    (* a datagram rejected before any oracle is consulted: nothing sent *)
+| SJunk (ip : bytes) (port : N) (d : bytes) (code nhs nss npend : N).    (* a datagram rejected before any oracle is consulted: nothing sent *)
 
 Definition set_ck (s : srv) (ck : N) : srv :=
   {| sv_hidden := sv_hidden s; sv_ck := ck; sv_pol := sv_pol s; sv_maxpending := sv_maxpending s;
@@ -225,12 +225,14 @@ Definition sm_of_code (c : N) : sess -> addr -> bytes -> res sess :=
 Definition ip4 (ip : N) : bytes := be_enc 4 ip.
 Definition env0 : env := Env 0 [] [] [] [] [] [] [].
 
-Definition step_ok (s : srv) (e : env) (inp : step_in) (ip port : N) (d : bytes) (ob : sobs) : bool * srv :=
-  let o := server_step (mkO e) (mkX e) (sm_of_code (sb_code ob)) s inp (ip4 ip, port) d in
+(* the source address as the code sees it: the IP bytes as reported (4 for IPv4, 16 for IPv6 and for
+   IPv4-mapped addresses) and the port; ip4 n = the 4 bytes of an IPv4 address given as a number *)
+Definition step_ok (s : srv) (e : env) (inp : step_in) (ip : bytes) (port : N) (d : bytes) (ob : sobs) : bool * srv :=
+  let o := server_step (mkO e) (mkX e) (sm_of_code (sb_code ob)) s inp (ip, port) d in
   let s' := so_srv o in
   ((res_code (so_res o) =? sb_code ob) &&
    beq_list beq_bytes (map snd (so_out o)) (sb_outs ob) &&
-   forallb (fun x => addr_eqb (fst x) (ip4 ip, port)) (so_out o) &&
+   forallb (fun x => addr_eqb (fst x) (ip, port)) (so_out o) &&
    (len_list (sv_hs s') =? sb_nhs ob) && (len_list (sv_ss s') =? sb_nss ob) &&
    (len_list (sv_pending s') =? sb_npend ob) && keys_ok s' (sb_keys ob), s').
 
